@@ -35,7 +35,7 @@ Definition cand_us1 (b : str) (i : nat) : str :=
   match i with O => b | S _ => b ++ [95] ++ dec (N.of_nat i) end.
 (* class names: base, stem2, stem3, ... where stem = base without one trailing "_" *)
 Definition class_stem (b : str) : str :=
-  match rev b with 95 :: r => rev r | _ => b end.
+  match rev b with c :: r => if c =? 95 then rev r else b | [] => b end.
 Definition cand_class (b : str) (i : nat) : str :=
   match i with O => b | S _ => class_stem b ++ dec (N.of_nat (S i)) end.
 
@@ -136,7 +136,7 @@ Fixpoint nodupb (l : list str) : bool :=
 (* guard F07a: no derived method name already looks like a suffixed one ("x_<digits>") *)
 Definition ends_us_digits (s : str) : bool :=
   match span is_digit (rev s) with
-  | (_ :: _, 95 :: _) => true
+  | (_ :: _, c :: _) => c =? 95
   | _ => false
   end.
 Definition guard_F07a (ids : list str) : bool := forallb (fun id => negb (ends_us_digits (method_name id))) ids.
